@@ -282,6 +282,14 @@ def builders_case(rep, rng):
 								kw[k_] = [kw[k_]] * len(lo_) if not isinstance(kw[k_], list) else kw[k_]
 						kw['demand_source'] = [DemandSource(type='P', mean=want_mean[l]) if l in dem_ else None for l in lo_]
 					rep.count('builders:demand-source-as-' + ds_shape)
+				elif ds_shape == 'attrs' and rng_l.random() < .6:
+					# demand attributes given PER NODE (list in system order, or dict), with entries for the nodes that are documented to have no demand too
+					ds_shape = rng_l.choice(['attrs-list', 'attrs-dict'])
+					if ds_shape == 'attrs-list':
+						kw.update(demand_type=['P'] * len(nodes_), mean=[5] * len(nodes_))
+					else:
+						kw.update(demand_type={l: 'P' for l in nodes_}, mean={l: 5 for l in nodes_})
+					rep.count('builders:demand-attributes-per-node')
 				case.update(order=order, ds=ds_shape)
 				if kind == 'owmr':
 					net = owmr_system(n, node_order_in_system=order, **kw)
